@@ -1,13 +1,158 @@
-import Srctools.Model.C10
+import Srctools.Proofs.C10
 import Srctools.Gen.Bsp
-/-! # C10 — obligations on the tables of the current source (theorems follow) -/
-namespace C10
+/-!
+# C10 — saving an unmodified BSP is lossless whichever lumps were looked at
 
+Property theorems only.  The model (`Model/C10.lean`): `access` = `ParsedLump.__get__`, `save` = the
+rebuild loop of `BSP.save`, over the tables extracted from the current `bsp.py` (`Gen/Bsp.lean`) and
+an abstract lump codec.  The theorems hold for **every** table satisfying the decidable predicate
+`TablesOK` and for every sequence of view reads; `C10_gen_ok` checks the predicate on the tables of the
+source as it is now.
+-/
+namespace C10
+variable {B V : Type}
+
+/-- all decidable well-formedness conditions on the extracted tables. -/
+def TablesOK (T : Tables) : Bool :=
+  WF T && WritesAll T && Topo T && RAcyclic T && Frame T && BorrowOK T
+
+/-! ## Obligations on the current source (`decide` on the regenerated tables) -/
+
+/-- ids in range, main lump first in `to_clear`, mains distinct and present in `LUMP_REBUILD_ORDER`. -/
 theorem C10_gen_wf : WF Gen.Bsp.tables = true := by decide +kernel
+/-- every writer rebuilds every lump its view empties. -/
 theorem C10_gen_writes_all : WritesAll Gen.Bsp.tables = true := by decide +kernel
+/-- **Topo**: every view reachable while the writer of `v` runs comes later in the rebuild order
+(in particular no writer reads its own view). -/
 theorem C10_gen_topo : Topo Gen.Bsp.tables = true := by decide +kernel
+/-- the readers do not depend on each other cyclically. -/
 theorem C10_gen_racyclic : RAcyclic Gen.Bsp.tables = true := by decide +kernel
+/-- no lump is emptied by two views; raw lumps used directly are the view's own or belong to no view. -/
 theorem C10_gen_frame : Frame Gen.Bsp.tables = true := by decide +kernel
+/-- the `model` keys `bmodels` takes out of the entities are put back by its writer, before the entity writer runs. -/
 theorem C10_gen_borrow : BorrowOK Gen.Bsp.tables = true := by decide +kernel
+/-- a reader that stores to a raw lump (`texinfo` empties TEXDATA itself) only does so to a lump its view empties anyway. -/
+theorem C10_gen_reader_stores :
+    Gen.Bsp.readerStores.all (fun p => (Gen.Bsp.tables.view p.1).clears.contains p.2) = true := by decide +kernel
+/-- the body order of the file: every lump once, PAKFILE last. -/
+theorem C10_gen_write_order :
+    Gen.Bsp.tables.writeOrder.length = 64 ∧ Gen.Bsp.tables.writeOrder.Nodup ∧
+    Gen.Bsp.tables.writeOrder.all (· < 64) = true ∧ Gen.Bsp.tables.writeOrder.getLast? = some 40 := by decide +kernel
+
+theorem C10_gen_ok : TablesOK Gen.Bsp.tables = true := by
+  simp [TablesOK, C10_gen_wf, C10_gen_writes_all, C10_gen_topo, C10_gen_racyclic, C10_gen_frame, C10_gen_borrow]
+
+private theorem ok_parts {T : Tables} (h : TablesOK T = true) :
+    WF T = true ∧ WritesAll T = true ∧ Topo T = true ∧ RAcyclic T = true ∧ Frame T = true ∧ BorrowOK T = true := by
+  simpa [TablesOK, and_assoc] using h
+
+/-! ## The property, for all tables and all read sequences -/
+
+/-- **flush.** After reading any views in any order and saving, nothing is left in the cache and no
+lump is left emptied. -/
+theorem C10_flush (T : Tables) (h : TablesOK T = true) (C : Codec B V) (raw₀ : Nat → B)
+    (xs : List Nat) (hxs : ∀ u ∈ xs, u < T.n) :
+    (∀ v, (save T C (accesses T C xs (init raw₀))).parsed v = none) ∧
+    (∀ l, (save T C (accesses T C xs (init raw₀))).clr l = false) := by
+  obtain ⟨h1, h2, h3, _, _, h6⟩ := ok_parts h
+  obtain ⟨a, b, _, _⟩ := flush_all T C h1 h2 h3 h6 raw₀ xs hxs
+  exact ⟨a, b⟩
+
+/-- **borrowed keys.** The keys a reader removes from another view's objects (`bmodels` pops `model`
+from the entities) are all back when that view is written, and none is pending after save. -/
+theorem C10_borrow (T : Tables) (h : TablesOK T = true) (C : Codec B V) (raw₀ : Nat → B)
+    (xs : List Nat) (hxs : ∀ u ∈ xs, u < T.n) :
+    (save T C (accesses T C xs (init raw₀))).lost = [] ∧
+    (save T C (accesses T C xs (init raw₀))).pending = [] := by
+  obtain ⟨h1, h2, h3, _, _, h6⟩ := ok_parts h
+  obtain ⟨_, _, c, d⟩ := flush_all T C h1 h2 h3 h6 raw₀ xs hxs
+  exact ⟨c, d⟩
+
+/-- **content.** If the codecs satisfy the round-trip laws and `E` is the parse of the original
+lumps, then after reading any views and saving, every view of the saved lumps still reads as `E`,
+and every lump that belongs to no view is byte-identical. -/
+theorem C10_content (T : Tables) (h : TablesOK T = true) (C : Codec B V) (L : Laws T C)
+    (raw₀ : Nat → B) (E : Nat → V) (hE : IsEnv T C raw₀ E) (xs : List Nat) (hxs : ∀ u ∈ xs, u < T.n) :
+    IsEnv T C (save T C (accesses T C xs (init raw₀))).raw E ∧
+    (∀ l, T.owned l = false → (save T C (accesses T C xs (init raw₀))).raw l = raw₀ l) := by
+  obtain ⟨h1, h2, h3, h4, h5, h6⟩ := ok_parts h
+  obtain ⟨_, hb, hc⟩ := content_all T C h1 h3 h5 h4 L raw₀ E hE xs hxs
+  obtain ⟨hnone, _⟩ := flush_all T C h1 h2 h3 h6 raw₀ xs hxs
+  exact ⟨fun v hv => hb v hv (by omega) (hnone v), hc⟩
+
+/-- **no access.** Saving without having read any view changes no lump at all (for any tables). -/
+theorem C10_noaccess (T : Tables) (C : Codec B V) (raw₀ : Nat → B) :
+    save T C (accesses T C [] (init raw₀)) = init raw₀ := by
+  show T.order.foldl (saveStep T C) (init raw₀) = init raw₀
+  refine foldl_inv (fun s => s = init raw₀) _ _ _ rfl (fun a l _ ha => ?_)
+  subst ha
+  cases hv : T.viewOfMain l with
+  | none => exact saveStep_none T C _ l hv
+  | some v => exact saveStep_skip T C _ l v hv rfl
+
+/-- **repeated cycles.** Re-opening the saved lumps, reading any (other) views and saving again keeps
+the same parse `E`, keeps the view-less lumps byte-identical, and a second save without reads
+reproduces the lumps of the first byte for byte. -/
+theorem C10_idem (T : Tables) (h : TablesOK T = true) (C : Codec B V) (L : Laws T C)
+    (raw₀ : Nat → B) (E : Nat → V) (hE : IsEnv T C raw₀ E)
+    (xs ys : List Nat) (hxs : ∀ u ∈ xs, u < T.n) (hys : ∀ u ∈ ys, u < T.n) :
+    let raw₁ := (save T C (accesses T C xs (init raw₀))).raw
+    let raw₂ := (save T C (accesses T C ys (init (V := V) raw₁))).raw
+    IsEnv T C raw₂ E ∧ (∀ l, T.owned l = false → raw₂ l = raw₀ l) ∧
+    (save T C (accesses T C [] (init (V := V) raw₁))).raw = raw₁ := by
+  intro raw₁ raw₂
+  obtain ⟨e1, u1⟩ := C10_content T h C L raw₀ E hE xs hxs
+  obtain ⟨e2, u2⟩ := C10_content T h C L raw₁ E e1 ys hys
+  refine ⟨e2, fun l hl => ?_, ?_⟩
+  · exact (u2 l hl).trans (u1 l hl)
+  · rw [C10_noaccess]; rfl
+
+/-- The theorems at the tables of the current source. -/
+theorem C10_flush_current (C : Codec B V) (raw₀ : Nat → B) (xs : List Nat) (hxs : ∀ u ∈ xs, u < 21) :
+    (∀ v, (save Gen.Bsp.tables C (accesses Gen.Bsp.tables C xs (init raw₀))).parsed v = none) ∧
+    (∀ l, (save Gen.Bsp.tables C (accesses Gen.Bsp.tables C xs (init raw₀))).clr l = false) :=
+  C10_flush Gen.Bsp.tables C10_gen_ok C raw₀ xs hxs
+
+/-! ## Non-vacuity, and why `Topo` is needed -/
+
+/-- A codec satisfying the laws on any well-formed tables: a view's value is the content of its main lump. -/
+def mainCodec (T : Tables) : Codec Nat Nat where
+  empty := 0
+  dflt := 0
+  rd := fun v raw _ => raw (T.view v).main
+  wr := fun v x _ raw l => if l ∈ (T.view v).clears then x else raw l
+
+theorem mainCodec_laws (T : Tables) (hwf : WF T = true) : Laws T (mainCodec T) where
+  rd_frame := fun v hv raw raw' _ _ hr _ => hr _ (by simp [main_mem_clears T hwf v hv])
+  wr_frame := fun _ _ _ _ _ _ _ => rfl
+  roundtrip := fun v hv raw env raw₁ _ => by
+    simp [mainCodec, applyWr, main_mem_clears T hwf v hv]
+  aux_stable := fun v _ raw env raw₁ _ l _ hnc => by simp [mainCodec, hnc]
+
+/-- the hypotheses of `C10_content` are satisfiable at the current tables, with a non-constant file. -/
+example : Laws Gen.Bsp.tables (mainCodec Gen.Bsp.tables) ∧
+    IsEnv Gen.Bsp.tables (mainCodec Gen.Bsp.tables) (fun l => l + 100) (fun v => (Gen.Bsp.tables.view v).main + 100) :=
+  ⟨mainCodec_laws _ C10_gen_wf, fun _ _ => rfl⟩
+
+/-- reading `water_leaf_info` (9) then `faces` (15) and saving, on the current tables: cache empty. -/
+example : (save Gen.Bsp.tables (mainCodec Gen.Bsp.tables)
+    (accesses Gen.Bsp.tables (mainCodec Gen.Bsp.tables) [9, 15] (init fun l => l + 100))).parsed 9 = none := by
+  decide +kernel
+
+/-- The tables as they were before the fix of `_lmp_write_water_leaf_info` (its writer evaluated
+`self.water_leaf_info`): a self-edge. -/
+def tablesBeforeFix : Tables :=
+  { Gen.Bsp.tables with views := (List.range Gen.Bsp.tables.n).map fun v =>
+      if v = 9 then { Gen.Bsp.tables.view 9 with wdeps := [3, 9] } else Gen.Bsp.tables.view v }
+
+/-- `Topo` rejects the self-edge … -/
+theorem C10_topo_rejects_self_edge : Topo tablesBeforeFix = false := by decide +kernel
+
+/-- … and without `Topo` the flush theorem is false: reading `water_leaf_info` and saving leaves it in
+the cache, re-parsed from the emptied lump (value `0` = `b''` instead of `136`). -/
+theorem C10_flush_needs_topo :
+    (save tablesBeforeFix (mainCodec tablesBeforeFix)
+      (accesses tablesBeforeFix (mainCodec tablesBeforeFix) [9] (init fun l => l + 100))).parsed 9 = some 0 := by
+  decide +kernel
 
 end C10
